@@ -50,6 +50,11 @@ CONTENTS = {
 }
 # per-bin totals beyond 255 and 65535 (one catalog alone: 300 in one bin; summed over catalogs: 70000)
 CONTENTS['H'] = [[ev(i, 0, 5.5) for i in range(40000)], [ev(40000 + i, 0, 5.5) for i in range(30000)] + [ev(70000 + i, 3, 6.5) for i in range(300)], []]
+# a synthetic event ONE ULP below the lowest magnitude edge (inside the binning tolerance zone of C02: the library counts it in
+# the first bin, a range filter 'magnitude >= 5.0' would drop it). Only the pass content, the per-catalog counts and the
+# history-independence of every operation are judged on it - not which bin it is counted in (that belongs to C02/C03).
+import math as _math
+CONTENTS['Z'] = [[ev(1, 0, _math.nextafter(5.0, 0.0)), ev(2, 1, 5.5)], [ev(3, 2, 6.5)], [ev(4, 3, _math.nextafter(5.0, 0.0))]]
 OBS = [ev(101, 0, 5.5), ev(102, 3, 6.5)]
 
 OPS = ['IT', 'EC', 'NC', 'ER', 'SC', 'MC', 'cN', 'cS', 'cM', 'cPL', 'cRM', 'cMLL', 'cRMlow']
@@ -91,6 +96,9 @@ def cases(tier, seed):
         for content in ('A', 'E'):
             yield dict(kind='bfs', storage=storage, fmag=False, fsp=(content == 'E'), content=content, depth=depth, hint=2)
             yield dict(kind='bfs', storage=storage, fmag=False, fsp=(content == 'E'), content=content, depth=depth, hint=-1)
+    # a tolerance-zone magnitude in the stored catalogs (an evaluation that range-filters the forecast's own catalogs shows here)
+    for storage in ('mem', 'file_store', 'file_nostore'):
+        yield dict(kind='bfs', storage=storage, fmag=False, fsp=False, content='Z', depth=depth)
     # very many events per bin (every single operation on a fresh object and every pair of operations)
     yield dict(kind='bfs', storage='mem', fmag=False, fsp=False, content='H', depth=1)
     # seed-selected extra complete block (quick): one configuration explored one level deeper
@@ -265,7 +273,7 @@ def judge_obs(case, hist, op, obs, fresh, ref, failures, counters):
     if len(obs) > 1 and obs[1] == 'EXC':
         if fresh == obs:
             counters['op_undefined_for_config'] = counters.get('op_undefined_for_config', 0) + 1
-            if op in ('IT', 'EC', 'NC', 'ER', 'SC', 'MC'):
+            if op in ('IT', 'EC', 'NC') or (op in ('ER', 'SC', 'MC') and case['content'] != 'Z'):
                 fail(f'exception:{obs[2]}', f'{obs[2]}: {obs[3]}')
         else:
             fail(f'exception:{obs[2]}', f'{obs[2]}: {obs[3]} (fresh object gives {str(fresh)[:120]})')
@@ -288,6 +296,8 @@ def judge_obs(case, hist, op, obs, fresh, ref, failures, counters):
             fail('n_cat-wrong', f'n_cat = {obs[1]} expected {J}')
         if hist and any(h in ('IT', 'EC', 'ER', 'SC', 'MC', 'cN', 'cS', 'cM', 'cPL', 'cRM', 'cMLL', 'cRMlow') for h in hist) and obs[1] != J:
             fail('n_cat-wrong', f'n_cat = {obs[1]} after a complete pass, expected {J}')
+    elif case['content'] == 'Z' and op in ('ER', 'SC', 'MC'):
+        pass            # which bin a tolerance-zone magnitude is counted in is not C13's business; the differential oracle below applies
     elif op == 'ER':
         want = ref_rates(ref)
         if obs[1] is None:
